@@ -63,7 +63,7 @@ def gen_pda(rng, max_states=3, max_stack=3, max_trans=6, reserved=True):
     names = ["S:" + s for s in states] + ["G:" + g for g in stack]
     return {"states": states, "stack": stack, "inputs": inputs, "trans": trans, "start": states[0],
             "z0": stack[0], "finals": finals, "hash": assign_hashes(rng, sorted(names), mode), "hashmode": mode,
-            "ctor_tf": rng.chance(0.15)}
+            "ctor_tf": rng.chance(0.15), "ctor_eps": rng.pick([None, None, None, "str", "obj"])}
 
 
 def sv(case, s):
@@ -82,6 +82,18 @@ def ref_of(case):
                S(case["start"]), Gm(case["z0"]), [S(x) for x in case["finals"]])
 
 
+def _ctor_inputs(case):
+    """the declared input alphabet; in part of the cases it also lists epsilon (by name or as an object), as the
+    repository's own tests do"""
+    from pyformlang.pda import Epsilon
+    ins = set(case["inputs"])
+    if case.get("ctor_eps") == "str":
+        ins.add("epsilon")
+    elif case.get("ctor_eps") == "obj":
+        ins.add(Epsilon())
+    return ins
+
+
 def build(case):
     from pyformlang.pda import PDA
     if case.get("ctor_tf"):
@@ -93,12 +105,13 @@ def build(case):
         for q, a, X, r, g in case["trans"]:
             tf.add_transition(State(sv(case, q)), Epsilon() if a is None else Symbol(a), StackSymbol(gv(case, X)),
                               State(sv(case, r)), [StackSymbol(gv(case, y)) for y in g])
-        return PDA(states={sv(case, s) for s in case["states"]}, input_symbols=set(case["inputs"]),
+        return PDA(states={sv(case, s) for s in case["states"]}, input_symbols=_ctor_inputs(case),
                    stack_alphabet={gv(case, g) for g in case["stack"]}, transition_function=tf,
                    start_state=sv(case, case["start"]), start_stack_symbol=gv(case, case["z0"]),
                    final_states={sv(case, s) for s in case["finals"]})
     pda = PDA(start_state=sv(case, case["start"]), start_stack_symbol=gv(case, case["z0"]),
-              final_states={sv(case, s) for s in case["finals"]}, states={sv(case, s) for s in case["states"]})
+              final_states={sv(case, s) for s in case["finals"]}, states={sv(case, s) for s in case["states"]},
+              **({"input_symbols": _ctor_inputs(case)} if case.get("ctor_eps") else {}))
     for q, a, X, r, g in case["trans"]:
         pda.add_transition(sv(case, q), "epsilon" if a is None else a, gv(case, X), sv(case, r),
                            [gv(case, y) for y in g])
@@ -182,6 +195,8 @@ def shrink_pda(case):
         yield mk(states=[s for s in case["states"] if s in used_s], stack=[g for g in case["stack"] if g in used_g])
     if case.get("ctor_tf"):
         yield mk(ctor_tf=False)
+    if case.get("ctor_eps"):
+        yield mk(ctor_eps=None)
     if case.get("hash"):
         ident = {n: i for i, n in enumerate(sorted(case["hash"]))}
         if ident != case["hash"]:
